@@ -293,8 +293,13 @@ func (c13) Run(ctx *RunCtx) {
 			tasks = append(tasks, t)
 		}
 		if len(tasks) != k {
-			fail("harness", fmt.Sprintf("expected %d background tasks for the burst, found %d", k, len(tasks)))
-			return
+			// this tree does not start one analysis task per change (it may
+			// debounce or coalesce them): the permutation cannot be imposed, the
+			// burst simply runs to quiescence and the oracle below judges the outcome
+			ctx.T("the burst started %d background tasks, not %d: schedule enumeration not applicable to this tree", len(tasks), k)
+			ctx.Stats.Inc("probe:enumeration-not-applicable")
+			tasks = nil
+			perm = nil
 		}
 		runTo := func(t *simrt.Task, publishPoint bool) {
 			for n := 0; n < 5000 && t.State == simrt.StParked; n++ {
@@ -309,7 +314,9 @@ func (c13) Run(ctx *RunCtx) {
 				d.S.Step(t)
 			}
 		}
-		if !polB {
+		if tasks == nil {
+			// nothing to impose
+		} else if !polB {
 			for _, t := range tasks {
 				runTo(t, true)
 			}
